@@ -50,6 +50,8 @@ import (
 	"iter"
 	"regexp/syntax"
 	"strings"
+	"unicode"
+	"unicode/utf8"
 	"unsafe"
 
 	"github.com/coregx/coregex/meta"
@@ -946,51 +948,97 @@ func (r *Regex) ExpandString(dst []byte, template string, src string, match []in
 }
 
 // expand appends template to dst and returns the result; during the
-// append, it replaces $1, $2, etc. with the corresponding submatch.
+// append, it replaces $name, ${name}, $1, ${1}, etc. with the corresponding
+// submatch, exactly as stdlib regexp.(*Regexp).expand does.
 // $0 is the entire match.
 func (r *Regex) expand(dst []byte, template []byte, src []byte, match []int) []byte {
 	i := 0
 	for i < len(template) {
-		if template[i] != '$' || i+1 >= len(template) {
+		if template[i] != '$' {
 			dst = append(dst, template[i])
 			i++
 			continue
 		}
 
-		// Handle $ escape sequences
-		next := template[i+1]
-
-		// Check for $0-$9
-		if next >= '0' && next <= '9' {
-			groupNum := int(next - '0')
-			// Each group occupies 2 indices in match array
-			groupIdx := groupNum * 2
-			if groupIdx+1 < len(match) && match[groupIdx] >= 0 {
-				dst = append(dst, src[match[groupIdx]:match[groupIdx+1]]...)
-			}
+		// $$ -> $
+		if i+1 < len(template) && template[i+1] == '$' {
+			dst = append(dst, '$')
 			i += 2
 			continue
 		}
 
-		// Check for ${name} - not supported yet, treat as literal
-		if next == '{' {
+		name, num, width, ok := extractTemplateName(template[i+1:])
+		if !ok {
+			// Malformed reference: treat $ as raw text
 			dst = append(dst, '$')
 			i++
 			continue
 		}
+		i += 1 + width
 
-		// $$ -> $
-		if next == '$' {
-			dst = append(dst, '$')
-			i += 2
+		if num >= 0 {
+			// Each group occupies 2 indices in match array
+			if 2*num+1 < len(match) && match[2*num] >= 0 {
+				dst = append(dst, src[match[2*num]:match[2*num+1]]...)
+			}
 			continue
 		}
 
-		// Unknown $ escape, treat as literal
-		dst = append(dst, '$')
-		i++
+		// Named group: the first participating group with that name wins
+		for g, groupName := range r.SubexpNames() {
+			if string(name) == groupName && 2*g+1 < len(match) && match[2*g] >= 0 {
+				dst = append(dst, src[match[2*g]:match[2*g+1]]...)
+				break
+			}
+		}
 	}
 	return dst
+}
+
+// extractTemplateName parses the variable reference that follows a '$' in a
+// template: either name or {name}, where name is the longest sequence of
+// letters, digits and underscores. It returns the name, its value as a group
+// number (-1 if the name is not a valid decimal number) and the number of
+// template bytes consumed. It mirrors the extract helper of stdlib regexp.
+func extractTemplateName(t []byte) (name []byte, num int, width int, ok bool) {
+	brace := len(t) > 0 && t[0] == '{'
+	if brace {
+		t = t[1:]
+	}
+	i := 0
+	for i < len(t) {
+		c, size := utf8.DecodeRune(t[i:])
+		if !unicode.IsLetter(c) && !unicode.IsDigit(c) && c != '_' {
+			break
+		}
+		i += size
+	}
+	if i == 0 {
+		// Empty name is not a reference
+		return nil, 0, 0, false
+	}
+	name = t[:i]
+	width = i
+	if brace {
+		if i >= len(t) || t[i] != '}' {
+			// Missing closing brace
+			return nil, 0, 0, false
+		}
+		width = i + 2
+	}
+
+	// A purely numeric name (without leading zeros) is a group index
+	for _, c := range name {
+		if c < '0' || c > '9' || num >= 1e8 {
+			num = -1
+			break
+		}
+		num = num*10 + int(c-'0')
+	}
+	if name[0] == '0' && len(name) > 1 {
+		num = -1
+	}
+	return name, num, width, true
 }
 
 // ReplaceAll returns a copy of src, replacing matches of the pattern
